@@ -122,6 +122,8 @@ func (e *Eval) eval(n *Node) Val {
 			srt = "Bool"
 		case "Str", "string":
 			srt = "Str"
+		case "Iface":
+			srt = "Iface"
 		default:
 			e.fail("unknown binder sort %s", srt)
 		}
@@ -136,6 +138,9 @@ func (e *Eval) eval(n *Node) Val {
 		bv := Val{T: bn, Sort: srt}
 		if srt == "Str" {
 			bv = Val{T: bn, Typ: types.Typ[types.String]}
+		}
+		if srt == "Iface" {
+			bv = Val{T: bn, Typ: types.NewInterfaceType(nil, nil)}
 		}
 		c.bound[n.Name] = bv
 		// definitions emitted while translating the body must not mention the bound variable: inline mode
@@ -598,6 +603,11 @@ func (e *Eval) call(n *Node) Val {
 			}
 			x.declRaw("fun:pool_tag", "(declare-fun pool_tag (Int) Int)")
 			return Val{T: fmt.Sprintf("(= (pool_tag %s) %d)", v.T, x.tagOfName(args[1].Name)), Sort: "Bool"}
+		case "cell":
+			// cell(p): the int64 cell at reference p (a location)
+			v := e.eval(args[0])
+			key := x.memKey(types.Typ[types.Int64])
+			return Val{T: fmt.Sprintf("(select %s %s)", x.get(e.st, key), v.T), Typ: types.Typ[types.Int64], Addr: &Addr{Kind: "cell", Key: key, Ref: v.T}}
 		case "oncedone":
 			// oncedone(o): the sync.Once at address o has run
 			v := e.eval(args[0])
